@@ -10,6 +10,7 @@ import (
 	"fmt"
 	"net"
 	gohttp "net/http"
+	"regexp"
 	"sort"
 	"strings"
 	"time"
@@ -24,6 +25,8 @@ import (
 
 // simLogger routes a node's log lines into the run's event log (addresses are
 // scrubbed so the log stays comparable between runs).
+var uuidRE = regexp.MustCompile(`[0-9a-f]{8}-[0-9a-f]{4}-[0-9a-f]{4}-[0-9a-f]{4}-[0-9a-f]{12}`)
+
 type simLogger struct {
 	c  *simrt.Ctx
 	id string
@@ -31,6 +34,7 @@ type simLogger struct {
 
 func (l *simLogger) Printf(format string, v ...interface{}) {
 	msg := fmt.Sprintf(format, v...)
+	msg = uuidRE.ReplaceAllString(msg, "UUID") // the cluster id comes from crypto/rand
 	if i := strings.Index(msg, "0x"); i >= 0 {
 		msg = msg[:i] + "0x?"
 	}
